@@ -1,17 +1,14 @@
 (* Engine A proofs: C07 (unresponsive-connection refresh: triggered exactly by
    rule, graceful, once).
 
-   Part 1: the monitor P07 holds on every harness-legal model history, under two
-           guards that are forced (counterexamples at the end of this file and in
-           Props_C07.v):
-             - no deCalls counter wraps (implied by: at most 2^32 - 2 operations),
-             - no call waiting on a channel returns in the very event that swaps
-               that channel's connection (the monitor compares the stream count
-               of the channel across the swap).
+   Part 1: the monitor P07 holds on every harness-legal model history.  One guard:
+           fewer than 2^31 calls are ever placed (the same guard as C02; streamsCnt
+           is an int32, and the swap clause compares stream counts across the swap
+           event).  It follows from: fewer than 2^31 operations.
    Part 2: state-level theorems about the refresh protocol. *)
 From GV Require Import Base.AListFacts Pool.Model Pool.Observe Pool.Monitors
-                       Pool.Lemmas Pool.Inv Pool.Inv2 Pool.Frames Pool.Sim Pool.InvC20 Pool.SimHome
-                       Pool.Reduce Pool.LegalRun Pool.C07Refresh Pool.C07Frames Pool.C07Check.
+                       Pool.Lemmas Pool.Inv Pool.Inv2 Pool.Frames Pool.Sim Pool.SimW Pool.InvC20 Pool.SimHome
+                       Pool.Reduce Pool.LegalRun Pool.InvC02 Pool.C07Refresh Pool.C07Frames Pool.C07Check.
 From Coq Require Import Lia ZifyBool.
 Open Scope Z_scope.
 
@@ -22,9 +19,7 @@ Open Scope Z_scope.
 Definition Inv07 (s : bal) : Prop := Inv s /\ Quiescent s /\ InvU s.
 
 Definition guard07 (raw : option config) (s : bal) (o : op) (order : list nat) : Prop :=
-  legal_step raw (fun _ _ _ => True) s o order /\
-  state_guard raw de_ok s o order /\
-  event_guard raw swap_quiet_ev s o order.
+  legal_step raw (fun _ _ _ => True) s o order /\ state_guard raw picks_ok s o order.
 
 Lemma full_step_other_no_rm raw s o order s' outs rt ub :
   Inv s -> rt <> RBadOp -> full_step raw s o order = (s', outs, rt, ub) ->
@@ -38,12 +33,11 @@ Proof.
 Qed.
 
 Lemma c07_check raw s ms o order s' outs rt ub :
-  Inv s -> InvU s -> Sim s ms -> rt <> RBadOp -> de_ok s ->
-  swap_quiet_ev (mkEvent o outs rt ub (Some (observe s'))) ->
+  Inv s -> InvU s -> Sim s ms -> rt <> RBadOp -> picks_ok s' ->
   full_step raw s o order = (s', outs, rt, ub) ->
   event_ok P07 raw ms (observe s) (mkEvent o outs rt ub (Some (observe s'))) = true.
 Proof.
-  intros HI HU HS Hrt Hde Hq E.
+  intros HI HU HS Hrt Hok E.
   change (c07_event (raw_in_force raw ms o) ms (observe s) (mkEvent o outs rt ub (Some (observe s'))) (observe s') = true).
   pose proof (c07_undet_holds _ _ _ _ _ _ _ _ _ HI HU (proj1 (proj2 HS)) E) as H1.
   assert (Hother : match o with OpDone _ _ _ | OpConnState _ Ready => False | _ => True end ->
@@ -68,8 +62,8 @@ Lemma C07_step raw s ms o order s' outs rt ub :
   Inv07 s' /\ Sim s' (track raw ms (observe s) ev (observe s')) /\
   event_ok P07 raw ms (observe s) ev = true.
 Proof.
-  intros (HI & HQ & HU) HS ([Hl _] & [Hde _] & Hq) E. cbv zeta.
-  unfold event_guard in Hq. rewrite E in Hl, Hq.
+  intros (HI & HQ & HU) HS ([Hl _] & [_ Hok]) E. cbv zeta.
+  rewrite E in Hl, Hok.
   destruct (Sim_step raw s ms o order s' outs rt ub HI HS Hl E) as [HI' [HQ' HS']].
   split; [split; [exact HI'|split; [exact HQ'|exact (full_step_InvU _ _ _ _ _ _ _ _ HI HU E)]]|].
   split; [exact HS'|]. eapply c07_check; eauto.
@@ -85,30 +79,59 @@ Proof.
   - exact Sim_init.
 Qed.
 
-(* the second guard, on a whole run *)
-Definition no_unblock_at_swap (raw : option config) (ops : list (op * list nat)) : Prop :=
-  Forall swap_quiet_ev (run raw init_bal ops).
-
-Theorem C07_holds_states raw ops :
-  legal raw ops -> Forall de_ok (run_states raw init_bal ops) -> no_unblock_at_swap raw ops ->
+Theorem C07_holds_proof raw ops :
+  legal raw ops ->
+  Forall (fun s => Z.of_nat (length (b_picks s)) < 2147483648) (run_states raw init_bal ops) ->
   monitor P07 raw (observe init_bal) (run raw init_bal ops) = true.
 Proof.
-  intros HL HD HQ. apply C07_guarded. unfold guard07.
-  apply (guarded_and raw (legal_step raw (fun _ _ _ => True))
-           (fun s o order => state_guard raw de_ok s o order /\ event_guard raw swap_quiet_ev s o order)).
+  intros HL HP. apply C07_guarded. unfold guard07.
+  apply (guarded_and raw (legal_step raw (fun _ _ _ => True)) (state_guard raw picks_ok)).
   - apply legal_of_run, HL.
-  - apply (guarded_and raw (state_guard raw de_ok) (event_guard raw swap_quiet_ev)).
-    + apply guarded_states, HD.
-    + apply guarded_events, HQ.
+  - apply guarded_states, HP.
 Qed.
 
-Theorem C07_holds_proof raw ops :
-  legal raw ops -> Z.of_nat (length ops) <= 4294967294 -> no_unblock_at_swap raw ops ->
+(* the guard follows from a bound on the length of the history: one operation places at most one call *)
+Lemma full_step_picks_le raw s o order s' outs rt ub :
+  Inv s -> full_step raw s o order = (s', outs, rt, ub) ->
+  (length (b_picks s') <= S (length (b_picks s)))%nat.
+Proof.
+  intros HI. rewrite full_step_eq.
+  destruct (step raw s o order) as [[s1 outs1] r1] eqn:Es.
+  destruct (resolve_blocked s1) as [s2 ub2] eqn:Er. intros E; inv E.
+  destruct (step_Inv _ _ _ _ _ _ _ HI Es) as [HI1 _].
+  destruct (resolve_blocked_spec _ _ _ HI1 Er) as [_ [_ [Hp _]]]. rewrite Hp, map_length. clear Hp Er.
+  pose proof (step_picks_other _ _ _ _ _ _ _ HI Es) as Hoth.
+  destruct o as [addrs a| |sc st|pi m hc rk dl cc|j oc rk|dt|j|f|g|k]; try (rewrite Hoth; lia).
+  - cbn [step] in Es. destruct (nth_error (b_published s) pi) as [pk|] eqn:Ep; [|inv Es; lia].
+    destruct (_ && _); [inv Es; lia|].
+    destruct (Pick_appends _ _ _ _ _ _ _ _ _ _ _ HI Ep Es) as [Happ _]. unfold pick_appends in Happ.
+    destruct rt; try (rewrite Happ; lia).
+    + destruct Happ as [key [i [_ [_ ->]]]]. rewrite app_length. cbn [length]. lia.
+    + destruct Happ as [key [_ [_ ->]]]. rewrite app_length. cbn [length]. lia.
+  - cbn [step] in Es. rewrite (Done_picks_gen _ _ _ _ _ _ _ Es).
+    destruct (nth_error (b_picks s) j) as [p|]; [|lia]. destruct (pk_status p); rewrite ?upd_nth_length; lia.
+  - cbn [step] in Es. destruct (nth_error (b_picks s) j); inv Es; sb; rewrite ?upd_nth_length; lia.
+Qed.
+
+Lemma run_states_picks_ok raw : forall ops s,
+  Inv s -> Z.of_nat (length (b_picks s)) + Z.of_nat (length ops) < 2147483648 ->
+  Forall (fun s => Z.of_nat (length (b_picks s)) < 2147483648) (run_states raw s ops).
+Proof.
+  induction ops as [|[o order] r IH]; intros s HI Hl; cbn [run_states].
+  - constructor; [cbn [length] in Hl; lia|constructor].
+  - constructor; [cbn [length] in Hl; lia|].
+    destruct (full_step raw s o order) as [[[s' outs] rt] ub] eqn:E.
+    destruct (full_step_Inv _ _ _ _ _ _ _ _ HI E) as [HI' _].
+    pose proof (full_step_picks_le _ _ _ _ _ _ _ _ HI E) as Hle.
+    specialize (IH s' HI' ltac:(cbn [length] in Hl; lia)).
+    destruct r as [|[o' order'] r']; exact IH.
+Qed.
+
+Theorem C07_holds_short raw ops :
+  legal raw ops -> Z.of_nat (length ops) < 2147483648 ->
   monitor P07 raw (observe init_bal) (run raw init_bal ops) = true.
 Proof.
-  intros HL Hn HQ. apply C07_holds_states; auto.
-  apply (run_states_de_ok raw ops init_bal 0); [exact Inv_init|lia|apply de_le_init|].
-  unfold W32. lia.
+  intros HL Hn. apply C07_holds_proof; [exact HL|]. apply run_states_picks_ok; [exact Inv_init|exact Hn].
 Qed.
 
 (* ================================================================ Part 2: the refresh protocol, state level *)
@@ -121,12 +144,12 @@ Theorem refresh_iff s p oc r c :
   get_slot s (pk_slot p) = Some r ->
   client_dl (b_now s) oc (pk_deadline p) = true ->   (* a client-side deadline that has passed *)
   sl_last r <= pk_started p ->                        (* the call started after the last response *)
-  0 <= sl_de r -> sl_de r + 1 < W32 ->
   window_in_range c (sl_rcnt r) = true ->
   (has_newsc (snd (detectUnresponsive s p oc)) = true <->
-   c_ucalls c <= sl_de r + 1 /\ sl_last r < b_now s - window_ns c (sl_rcnt r) /\ sl_refreshing r = false).
+   c_ucalls c <= (sl_de r + 1) mod W32 /\ sl_last r < b_now s - window_ns c (sl_rcnt r) /\
+   sl_refreshing r = false).
 Proof.
-  intros Hc HU Hu Hs Hcd Hst Hd0 Hd1 Hw.
+  intros Hc HU Hu Hs Hcd Hst Hw.
   destruct (detectUnresponsive s p oc) as [s2 o] eqn:E. cbn [snd].
   destruct (detectUnresponsive_spec _ _ _ _ _ _ Hs E) as [_ [-> _]]. rewrite has_newsc_du.
   destruct (InvU_pos s HU Hu) as [_ Hums].
@@ -135,11 +158,25 @@ Proof.
   unfold du_result. rewrite Hu, Hcd. cbn [negb].
   assert (Hlt : pk_started p <? sl_last r = false) by (apply Z.ltb_ge; exact Hst). rewrite Hlt. cbv zeta.
   rewrite (du_trigger_eq s r c Hc1 Hc2) by (auto; lia).
-  destruct (Z.leb_spec (c_ucalls c) (sl_de r + 1)) as [H1|H1];
+  destruct (Z.leb_spec (c_ucalls c) ((sl_de r + 1) mod W32)) as [H1|H1];
     destruct (Z.ltb_spec (sl_last r) (b_now s - window_ns c (sl_rcnt r))) as [H2|H2];
     destruct (sl_refreshing r); try destruct (cannot_create s); cbn [andb snd];
     split; intros H; try discriminate; try (repeat split; (assumption || reflexivity)); try (exfalso; lia);
     try (destruct H as (?&?&?); discriminate).
+Qed.
+
+(* while the counter does not wrap this is the rule  ucalls <= deCalls + 1 *)
+Corollary refresh_iff_no_wrap s p oc r c :
+  b_cfg s = Some c -> InvU s -> b_undet s = true ->
+  get_slot s (pk_slot p) = Some r ->
+  client_dl (b_now s) oc (pk_deadline p) = true -> sl_last r <= pk_started p ->
+  0 <= sl_de r -> sl_de r + 1 < W32 ->
+  window_in_range c (sl_rcnt r) = true ->
+  (has_newsc (snd (detectUnresponsive s p oc)) = true <->
+   c_ucalls c <= sl_de r + 1 /\ sl_last r < b_now s - window_ns c (sl_rcnt r) /\ sl_refreshing r = false).
+Proof.
+  intros Hc HU Hu Hs Hcd Hst Hd0 Hd1 Hw.
+  rewrite (refresh_iff s p oc r c Hc HU Hu Hs Hcd Hst Hw), Z.mod_small by (split; [lia|exact Hd1]). reflexivity.
 Qed.
 
 (* --- known finding R2: outside the range the model's uint32 window differs from
@@ -328,10 +365,10 @@ Proof.
   split; [exact R6|]. intros j Hj. unfold get_slot. rewrite R2. apply nth_error_upd_nth_neq. congruence.
 Qed.
 
-(* ================================================================ the two guards are forced *)
-(* (a) a call waiting on the channel returns in the swap event: the monitor sees the
-       stream count change across the swap and rejects a legal history *)
-Example swap_unblock_counterexample :
+(* ================================================================ two histories the first version of the monitor rejected *)
+(* (a) a round-robin BIND call waiting on the channel returns in the swap event: the
+       stream count of the channel grows by one across the swap *)
+Example swap_unblock_history :
   let raw := Some (mkConfig 1 4 100 false 10 1 true [(1%N, mkMcfg BIND true)]) in
   let ops := [(OpResolver 1 CfgVal, []); (OpConnState 0 Ready, []);
               (OpPick 0 0 false [] (Some 5) false, []); (OpAdvance 20000001, []);
@@ -341,11 +378,12 @@ Example swap_unblock_counterexample :
               (OpConnState 1 Ready, [])] in
   map ev_ret (run raw init_bal ops) = [RNone; RNone; RPicked 0; RNone; RNone; RNone; RBlocked; RNone] /\
   map ev_ub (run raw init_bal ops) = [[]; []; []; []; []; []; []; [(1%nat, 1%N)]] /\
-  monitor P07 raw (observe init_bal) (run raw init_bal ops) = false.
+  map (fun s => map sl_streams (b_slots s)) (skipn 7 (run_states raw init_bal ops)) = [[0]; [1]] /\
+  monitor P07 raw (observe init_bal) (run raw init_bal ops) = true.
 Proof. vm_compute. repeat split; reflexivity. Qed.
 
-(* (b) deCalls = 2^32 - 1: the model's counter wraps to 0 and no refresh is attempted,
-       the monitor's rule (ucalls <= deCalls + 1) demands one.  One legal Done from
+(* (b) deCalls = 2^32 - 1: the uint32 counter wraps to 0 and no refresh is attempted
+       (the rule is  ucalls <= (deCalls + 1) mod 2^32).  One legal Done from
        [wrap_state de]: the state reached by a legal prefix, with only the deCalls
        counter of the channel set to [de]; [wrap_ms] is the monitor's bookkeeping
        after that prefix. *)
@@ -369,7 +407,7 @@ Fixpoint ms_after (raw : option config) (ms : mstate) (before : obs) (tr : list 
 
 Definition wrap_ms : mstate := ms_after wrap_raw ms_init (observe init_bal) (run wrap_raw init_bal wrap_prefix).
 
-Example de_wrap_counterexample :
+Example de_wrap_step :
   let step de := run wrap_raw (wrap_state de) [(OpDone 0 DDeadlineClient [], [])] in
   (* deCalls = 0 is the reachable state itself *)
   wrap_state 0 = run_state wrap_raw init_bal wrap_prefix /\
@@ -377,9 +415,10 @@ Example de_wrap_counterexample :
   (* one below the maximum: refresh by rule, accepted *)
   map ev_ret (step 4294967294) = [RNone] /\ map ev_out (step 4294967294) = [[ONewSC 1 1; OConnect 1]] /\
   mon_from P07 wrap_raw wrap_ms (observe (wrap_state 4294967294)) (step 4294967294) = true /\
-  (* at the maximum: the counter wraps, no refresh, rejected *)
+  (* at the maximum: the counter wraps to 0, no refresh, accepted as well *)
   map ev_ret (step 4294967295) = [RNone] /\ map ev_out (step 4294967295) = [[]] /\
-  mon_from P07 wrap_raw wrap_ms (observe (wrap_state 4294967295)) (step 4294967295) = false.
+  map (fun ev => match ev_obs ev with Some o => map sl_de (o_slots o) | None => [] end) (step 4294967295) = [[0]] /\
+  mon_from P07 wrap_raw wrap_ms (observe (wrap_state 4294967295)) (step 4294967295) = true.
 Proof. vm_compute. repeat split; reflexivity. Qed.
 
 (* ================================================================ helpers for hand-made bad traces (Props_C07.v) *)
